@@ -87,7 +87,8 @@ SPEC = dict(
     ],
     assumptions=[
         'every completion of the nested operation is preceded by try_complete(this) and only the caller that got true completes the receiver (documented contract of cancellable, doc/api_reference.md)',
-        'the caller of try_complete keeps the operation alive until try_complete returns (true for the natural completer by the nested operation\'s contract and for a stop() hook run from the stop callback, which the winner\'s cleanup_ waits for; NOT true for the stop() hook run from the start frame: known finding)',
+        'the caller of try_complete keeps the operation alive until try_complete returns (true for the natural completer by the nested operation\'s contract and for a stop() hook run from the stop callback, which the winner\'s cleanup_ waits for; NOT true for the stop() hook run from the start frame: known finding C19-cancellable-start-frame-stop)',
+        'NOT assumed: that the operation is still alive when the start frame executes fetch_or(started); the model lets a completer that saw `started` clear finish and the receiver destroy the op first, which is the known finding C19-cancellable-start-frame-fetch-or (native repro next to this file)',
         'the stop callback runs at most once, only while registered, and its destructor waits for a run in progress on another thread (C03, specs/stop_token)',
         'the receiver may destroy the operation as soon as the winner of try_complete has completed it (P2300 / unifex operation-state lifetime rule)',
         'the nested stop() hook calls try_complete(this) before anything else and touches the operation only if it won',
